@@ -470,7 +470,13 @@ FULL = [False]      # set per case by run_case: thorough tier builds every varia
 
 @sem("sctp", "DATA", "tsn_far_ahead")
 def _(c, cls):
-    return [c.pkt(c_data(c.base + k, 9, 0, 53, b"far", 7)) for k in (FAR, 0x7FFFFFF0, 65534, 65535, 70000)]
+    pk = [c.pkt(c_data(c.base + k, 9, 0, 53, b"far", 7)) for k in (FAR, 0x7FFFFFF0, 65534, 65535, 70000)]
+    # exactly half the number space ahead of the cumulative TSN (neither newer nor older by serial
+    # arithmetic), as a first fragment that stays in the reassembly queue, sent twice
+    for d in (0, 1, -1):
+        p = c.pkt(c_data(c.lastrx + 0x80000000 + d, 9, 0, 53, b"half", 2))
+        pk.append([p, p])
+    return pk
 
 
 @sem("sctp", "DATA", "tsn_far_behind")
